@@ -161,7 +161,8 @@ pub struct AnimEntry {
     pub id: u32,
     /// Start offset of the animation section
     pub offset: u32,
-    /// Size of the animation section
+    /// Size of the section header plus the bone offset table (16 + 4 * bone count);
+    /// the parser derives the bone count from it
     pub size: u32,
 }
 
@@ -925,10 +926,12 @@ impl AnimFile {
         for (i, section) in self.sections.iter().enumerate() {
             let section_start = writer.stream_position()? as u32;
             section.write(writer)?;
-            let section_end = writer.stream_position()? as u32;
 
             updated_entries[i].offset = section_start;
-            updated_entries[i].size = section_end - section_start;
+            // `AnimSection::parse` derives the bone count from this size, so it covers the
+            // 16-byte section header and the bone offset table, not the key-frame data
+            // that follows them
+            updated_entries[i].size = 16 + 4 * section.bone_animations.len() as u32;
         }
 
         // Update entries
